@@ -31,9 +31,12 @@ def materialise(base, files):
                 cuts = [0] + sorted(gz.get('cuts', [])) + [len(data)]
                 for a, b in zip(cuts, cuts[1:]):
                     if b > a or len(cuts) == 2:
+                        kw = {}
+                        if gz.get('mtime') is not None:
+                            kw['mtime'] = gz['mtime']   # header MTIME field
                         f.write(gzip.compress(data[a:b],
                                               compresslevel=gz.get('level',
-                                                                   6)))
+                                                                   6), **kw))
 
 
 def kill_group(pgid):
